@@ -42,7 +42,7 @@ theorem tstep_shape (sh : Shared) (pc : PC) (hn : 0 < sh.words.length) (hloc : l
   | g2 o =>
     left
     by_cases h : sh.offset = o
-    · have e : tstep sh (.g2 o) = ({ sh with offset := (o + 1) % sh.words.length }, .g4 ((o + 1) % sh.words.length) 0, none) := by
+    · have e : tstep sh (.g2 o) = ({ sh with offset := nextOffset sh.words.length o }, .g4 (nextOffset sh.words.length o) 0, none) := by
         simp only [tstep, h, ↓reduceIte]
       rw [e]; exact ⟨rfl, rfl, hq0 rfl rfl, hq0 rfl rfl, fun _ => trivial, by simp⟩
     · have e : tstep sh (.g2 o) = (sh, .g3, none) := by simp only [tstep, h, ↓reduceIte]
